@@ -64,6 +64,12 @@ func (e1Engine) Gen(prop string, seed int64, tier string) *Plan {
 	wSchema := 0
 	if p.Cfg["schema"] == 1 {
 		wSchema = 2 + r.IntN(3)
+		if chance(r, 50) {
+			// schema-heavy history on few nodes: several patches and switches on the same node
+			wSchema = 8 + r.IntN(8)
+			n = 2
+			p.Cfg["nodes"] = 2
+		}
 	}
 	total := wCreate + wUpd + wDel + wDeliver + wSync + wSchema
 	// always start with a create
